@@ -897,7 +897,7 @@ func c14Judge(s c14CompScen, recs []c14Rec, exp map[string]int, c *ev.Case) *ev.
 }
 
 const c14Rule = "A (composition): rapid draws, for each of the mock plugins vp0..vp3, a subset of the 19 HookWrapper kinds, a subset of kinds supplied through WithHook, plugin_order = a prefix (0-4) of a permutation of the four names, client version, SUBSCRIBE size and publish QoS; scripted traffic (accept, basic/enhanced auth, session created/resumed/terminated, subscribe(d), unsubscribe(d), message arrived/delivered/dropped by Maximum Packet Size, will publish(ed), closed, AUTH re-authentication, Stop) counts the events the wire shows; every wrapper logs enter/exit with an event id carried in ctx; per kind: events observed = events on the wire, enter order = plugin_order then the WithHook hook, exit order reversed. " +
-	"B (decisions): WithHook tables with rapid-drawn verdicts: OnBasicAuth/OnEnhancedAuth reject(code|plain error) for v3.1.1/v5 CONNECTs with will / pipelined SUBSCRIBE+retained PUBLISH; OnSubscribe whole-request error, per-topic Reject, GrantQoS, rewritten filter/NoLocal/RAP (in place or replaced object), SetID; OnUnsubscribe error / Reject / redirected topic; OnMsgArrived error(code) / Drop / rewrite of topic, payload, QoS, retained flag (in place or replaced object) with old retained values present or not; OnWillPublish Drop / in-place edit / replacement; OnReAuth ok / continue / error. SUBACK/UNSUBACK/PUBACK/PUBREC/CONNACK codes, SubscriptionService, RetainedService, ClientService and the messages actually received (barriers: PINGRESP + API sentinel) are compared with the model of the hook's decision; each decision hook is counted. " +
+	"B (decisions): WithHook tables with rapid-drawn verdicts: OnBasicAuth/OnEnhancedAuth reject(code|plain error) for v3.1.1/v5 CONNECTs with will / pipelined SUBSCRIBE+retained PUBLISH; OnSubscribe whole-request error, per-topic Reject, GrantQoS, rewritten filter/NoLocal/RAP (in place or replaced object), SetID; OnUnsubscribe error / Reject / redirected topic; OnMsgArrived error(code) / Drop / rewrite of topic, payload, QoS, retained flag (in place or replaced object) with old retained values present or not, and for QoS 2 a retransmission of the PUBLISH (DUP=1, same packet identifier, before PUBREL; on the same connection or after a reconnect that resumes the v3.1/v3.1.1/v5 session) while the hook's verdict has changed to accept - one event, the hook fires once and the first verdict stands; OnWillPublish Drop / in-place edit / replacement; OnReAuth ok / continue / error. SUBACK/UNSUBACK/PUBACK/PUBREC/CONNACK codes, SubscriptionService, RetainedService, ClientService and the messages actually received (barriers: PINGRESP + API sentinel) are compared with the model of the hook's decision; each decision hook is counted. " +
 	"Non-trivial: >=2 listed plugins share a kind whose event happened, or the verdict rejects/modifies; distinct by scenario digest."
 
 func TestC14Compose(t *testing.T) {
